@@ -18,6 +18,7 @@ import Drivers.Interp
 import Drivers.Gradation
 import Drivers.Subdiv
 import Drivers.Collapse
+import Drivers.Quality
 
 /-! `refdrv <driver> [args]` : dispatch to a line-protocol driver. One match arm per driver, on one line. -/
 
@@ -41,6 +42,7 @@ def main (args : List String) : IO UInt32 := do
   | "gradation" :: rest => Drivers.Gradation.run rest
   | "subdiv" :: rest => Drivers.Subdiv.run rest
   | "collapse" :: rest => Drivers.Collapse.run rest
+  | "quality" :: rest => Drivers.Quality.run rest
   | _ =>
     IO.eprintln s!"refdrv: unknown driver {args}"
     return 2
